@@ -15,6 +15,8 @@ import (
 	"sort"
 	"strings"
 	"time"
+
+	"golang.org/x/tools/go/ssa"
 )
 
 var harnessNameRe = regexp.MustCompile(`^VerifC[0-9]+_[A-Za-z0-9_]+$`)
@@ -70,6 +72,16 @@ func (e *Engine) writeReplay(prop string, v *Violation) (string, bool) {
 	b, _ = json.MarshalIndent(rf, "", " ")
 	os.WriteFile(p, b, 0o644)
 	ok := nativeMatches(&rf, res)
+	if !ok && strings.HasPrefix(res, "native-unsupported") {
+		// the harness replaces repository or dependency functions by stubs that only the engine can inject:
+		// the counterexample is confirmed by re-executing the harness in the engine with the model's values imposed
+		if e.confirmInEngine(v, rf.Values) {
+			rf.Native = res + "; confirmed by re-execution in the engine with the counterexample's values imposed"
+			b, _ = json.MarshalIndent(rf, "", " ")
+			os.WriteFile(p, b, 0o644)
+			return p, true
+		}
+	}
 	if !ok {
 		fmt.Fprintf(os.Stderr, "native replay of %s: %q (expected %s %s)\n%s\n", p, res, rf.Kind, rf.Label, tail(out, 30))
 	}
@@ -151,6 +163,10 @@ func (e *Engine) runNative(rf *replayFile, replayPath string) (string, string) {
 	}
 	defer func() {
 		if r := recover(); r != nil {
+			if nu, ok := r.(verifrt.NativeUnsupportedError); ok {
+				fmt.Println("REPLAY-RESULT: native-unsupported " + string(nu))
+				return
+			}
 			if _, ok := r.(verifrt.AssumeFailed); ok {
 				if len(verifrt.Failures) > 0 {
 					fmt.Println("REPLAY-RESULT: assert-fail " + strings.Join(verifrt.Failures, ","))
@@ -266,4 +282,42 @@ func cmdReplay(args []string) int {
 	}
 	fmt.Println(tail(out, 20))
 	return 0
+}
+
+// confirmInEngine re-executes the violating harness with the counterexample's scalar values imposed
+// and reports whether the same obligation fails again.
+func (e *Engine) confirmInEngine(v *Violation, values map[string]uint64) bool {
+	if e.prog == nil {
+		return false
+	}
+	var h *ssa.Function
+	for _, p := range e.ssaPkgs {
+		if p == nil {
+			continue
+		}
+		if f := p.Func(v.Harness); f != nil && e.isRepoPkg(p.Pkg.Path()) {
+			h = f
+		}
+	}
+	if h == nil {
+		return false
+	}
+	tf := NewTF()
+	solver := NewSolver(e.stats)
+	defer solver.Close()
+	queue := [][]int{nil}
+	for n := 0; len(queue) > 0 && n < 300; n++ {
+		prefix := queue[len(queue)-1]
+		queue = queue[:len(queue)-1]
+		ex := e.newExec(tf, solver, h, prefix)
+		ex.pins = values
+		e.runPath(ex, h)
+		for _, vv := range ex.violations {
+			if vv.Sig() == v.Sig() {
+				return true
+			}
+		}
+		queue = append(queue, ex.alts...)
+	}
+	return false
 }
